@@ -153,6 +153,7 @@ QUICK = {
     'tc-qu-query-recent': {'events': [qy((T1, PTR, True), tc=True)], 'sighted': ['PTR']},
     'repeat-after-1s': {'events': [qy((N1, SRV, False)), qy((N1, SRV, False), same_as_previous=True)], 'min_gap': 1001},
     'response-repeat-after-1s': {'events': [rs('P1'), dict(rs('P1'), same_as_previous=True)], 'min_gap': 1001},
+    'qu-query-then-response': {'events': [qy((N1, SRV, True)), rs('P2 S2+')], 'sighted': ['SRV']},
     'query-then-response': {'events': [qy((T1, PTR, False)), rs('P2')]},
 }
 THOROUGH = {
